@@ -43,6 +43,26 @@ check of its property, reverts, and writes `seeded/RESULTS.json`, from which thi
 """ + "\n".join(rows) + "\n\n"
 missed = [r for r in rows if "**no**" in r]
 table += ("All %d seeded changes are caught.\n\n" % len(rows)) if rows and not missed else ""
-out = head + open(os.path.join(V, "docs", "asbuilt_head.md")).read() + table + open(os.path.join(V, "docs", "asbuilt_tail.md")).read() + "\n" + appendix
+
+def theorem_index():
+    ev = {}
+    lines = ["| id | theorems in `coq/props/Cxx.v` (n; all `Closed under the global context`) | quick run: evaluations / distinct non-trivial / obligations discharged |", "|---|---|---|"]
+    total = 0
+    for i in range(1, 21):
+        pid = "C%02d" % i
+        src = open(os.path.join(V, "coq", "props", pid + ".v")).read()
+        names = [n[len(pid) + 1:] if n.startswith(pid + "_") else n for n in re.findall(r"^Theorem\s+([A-Za-z0-9_']+)", src, re.M)]
+        total += len(names)
+        cov = ""
+        ep = os.path.join(V, "evidence", pid + ".json")
+        if os.path.exists(ep):
+            c = json.load(open(ep)).get("coverage", {})
+            cov = "%s / %s / %s of %s" % (c.get("evaluations", "?"), c.get("distinct_nontrivial", "?"), c.get("discharged", "?"), c.get("obligations", "?"))
+        lines.append("| %s | %d: %s | %s |" % (pid, len(names), ", ".join("`%s`" % n for n in names), cov))
+    return "\n".join(lines) + "\n\n%d property theorems in all.\n" % total
+
+
+headtxt = open(os.path.join(V, "docs", "asbuilt_head.md")).read().replace("@@THEOREM_INDEX@@", theorem_index())
+out = head + headtxt + table + open(os.path.join(V, "docs", "asbuilt_tail.md")).read() + "\n" + appendix
 open(os.path.join(V, "DESIGN.md"), "w").write(out)
 print("DESIGN.md rebuilt: %d seeded rows, %d missed" % (len(rows), len(missed)))
